@@ -63,7 +63,7 @@ TEXT = {
         "design_ref": "DESIGN.md sect. 4 (C09), sect. 3.4",
         "technique": "deterministic simulation with fault injection: instrumented ReadDelimitedMessage (reader goroutine + timeout select) under the seeded scheduler and fake clock over a simulated stream (seeded chunking, arrival gaps incl. exactly-at-timeout, cut at any byte, EOF/eof-with-data/I/O error/stall, io.Pipe-like zero-length reads); oracle = reference model of the frame sequence predicting result, error class, return instant and timeout progress text; codecs checked under seeded chunking and cuts; shrinking + exact replay",
         "level_text": "Seeded exploration of message sequences x byte-stream partitions x truncation points x oversize prefixes x stall points on the current tree: the reference model walks the frames with the stream's own arrival times, so every returned message, EOF vs unexpected-EOF, oversize rejection (no further read, no allocation), timeout instant (exact on the fake clock) and the 'read k/n bytes' figures are checked on every run; binary and JSON stream codecs are checked for round trip and truncation reporting. Evidence, not proof.",
-        "level_note": "Trusted: simrt/simio, synctest clock. Boundary (data arrives exactly at the timeout instant): either outcome accepted. JSON messages are objects (as all protocol messages are).",
+        "level_note": "Trusted: simrt/simio, synctest clock. Boundary (data arrives exactly at the timeout instant): either outcome accepted. JSON messages are objects (as all protocol messages are). Second part (scenario c09-clientloop, config C09R, same command, own test binary): the real reference client request loop (run(): one stream decoder over stdin, a goroutine per request, encoder over stdout; binary and --json) reading 0-5 requests from a simulated stdin under seeded segmentation, reads that span several messages or are 1-8 bytes long, cuts at any byte and I/O errors; every completely delivered request must be answered exactly once, nothing else, and a truncated stream must be told from a clean end.",
     },
     "C04": {
         "engine": "S",
